@@ -17,9 +17,17 @@ translated statement by statement into Gen/C08Cache.lean and instantiate the exe
 (theorems of part E: every iteration rebuilds the lines at the current gap; after the solve the out cross-section, the
 memo and the reported gap belong to the same gap); K (e): that model run on the gap values a spring hook really answered
 vs the state of the real pass after the solve.
+FROM WHICH ROLLS the lines are built is part of that model too: the roll's memo `Roll.contour_line` over its hook
+`contour_points` (which hands out the contour points of the groove mounted at that moment), `reevaluate_cache` along the MRO
+of the pass's roll class, and histories of ONE pass object (solve / another groove mounted / new roll object / solve ...):
+`history_last_solve` - whatever was done with the pass object before, a solve ends on the groove that is mounted and the
+last gap; K (e) runs the model on whole histories (which groove per solve, gap values answered).  The remembered usable
+cross-section is current too (`cached_usable_cs_is_current`) - a theorem about the order of `reevaluate_cache` as repaired by
+20fe8da (memos dropped before the remembered hook values are recomputed); the old order's lag is kept as a witness theorem.
 The independent oracle checks the property text on really solved passes - plain ones and SCENARIOS (steps on one pass
 instance: rarely given hook values, gap given as height / inscribed circle / by a hook that settles during the solution,
-attributes read before solve, gap changed between two solves), judged at the gap the pass reports afterwards.
+attributes read before solve, gap changed between two solves, ANOTHER GROOVE MOUNTED on the rolls between two solves with the
+gap left alone), judged at the gap the pass reports afterwards and with the groove that is mounted then.
 """
 import json
 import math
@@ -151,13 +159,19 @@ def scan(tie=lambda s: None):
 
 
 CHAIN_TAIL = ["HookHost"]               # after the unit classes of PASS_MRO; checked against the real MRO in run()
+# the classes of the pass's roll object (`rp.roll`), most derived first (nested classes `<pass class>.Roll`, then the roll
+# class of pyroll/core/roll); checked against the real MRO in run()
+ROLL_MRO = {"two": ["TwoRollPass.Roll", "SymmetricRollPass.Roll", "BaseRollPass.Roll", "Roll"],
+            "three": ["ThreeRollPass.Roll", "SymmetricRollPass.Roll", "BaseRollPass.Roll", "Roll"]}
+ROLL_HOOKIMPLS = "roll/hookimpls.py"
 
 
 def scan_cache(tie=lambda s: None):
     """the memo of the contour lines and the protocol that invalidates it (-> Gen/C08Cache.lean, model OutCS.Cache):
     {"memo": {which: (flags, reads, lineno)}, "chain": {which: [(class, ops, lineno)]}, "loop": (steps, init first, lineno),
-     "init": (ops, lineno)}; missing pieces are left out (and recorded as translator gaps)"""
-    C = {"memo": {}, "chain": {}, "loop": None, "init": None}
+     "init": (ops, lineno), "roll_memo": {which: (flags, reads, lineno, class)}, "roll_chain": {which: [(class, ops, lineno)]},
+     "roll_points": [(fn, path read, lineno)]}; missing pieces are left out (and recorded as translator gaps)"""
+    C = {"memo": {}, "chain": {}, "loop": None, "init": None, "roll_memo": {}, "roll_chain": {}, "roll_points": None}
     try:
         files = oc.class_files(os.path.join(gen.REPO, "pyroll", "core"))
     except OSError as ex:
@@ -179,6 +193,30 @@ def scan_cache(tie=lambda s: None):
             C["chain"][which] = chain
         except (pyexpr.Untranslatable, OSError) as ex:
             tie(f"translator: reevaluate_cache along the MRO of {cls} is outside the translatable subset: {ex}")
+    # the roll side: the memo `Roll.contour_line` over the hook `contour_points`, `reevaluate_cache` along the MRO of the
+    # pass's roll class, and what the implementation of `contour_points` reads
+    for which in CONTOURS:
+        rchain = []
+        try:
+            for k in ROLL_MRO[which] + CHAIN_TAIL:
+                top = k.split(".")[0]
+                if top not in files:
+                    raise pyexpr.Untranslatable(f"class {top} not found in pyroll/core")
+                r = oc.extract_reevaluate(files[top], k, attr="_contour_line")
+                if r is not None:
+                    rchain.append((k, r[0], r[1]))
+                if which not in C["roll_memo"] and oc.defines(files[top], k, "contour_line"):
+                    # the first class along the MRO that defines the property answers
+                    C["roll_memo"][which] = oc.extract_contour_memo(files[top], k, prop="contour_line", attr="_contour_line") + (k,)
+            C["roll_chain"][which] = rchain
+            if which not in C["roll_memo"]:
+                raise pyexpr.Untranslatable("no class defines contour_line")
+        except (pyexpr.Untranslatable, OSError) as ex:
+            tie(f"translator: reevaluate_cache / contour_line along the MRO of {ROLL_MRO[which][0]} is outside the translatable subset: {ex}")
+    try:
+        C["roll_points"] = oc.extract_hook_reads(_core(ROLL_HOOKIMPLS), "Roll", "contour_points")
+    except (pyexpr.Untranslatable, OSError) as ex:
+        tie(f"translator: the implementation of Roll.contour_points (pyroll/core/{ROLL_HOOKIMPLS}) is outside the translatable subset: {ex}")
     try:
         C["loop"] = oc.extract_solve_loop(files.get("Unit", _core("unit/unit.py")))
     except (pyexpr.Untranslatable, OSError, AttributeError) as ex:
@@ -195,23 +233,52 @@ def emit_cache(ctx, C):
     L = ["import PyrollModel.OutCSCache",
          "/- GENERATED by driver/translate/c08_outcs.py from /repo's working tree on every run - do not edit. -/",
          "namespace Gen.C08", "open OutCS.Cache", ""]
+
+    def memo(m):
+        direct = any(r == "roll.groove" or r.startswith("roll.groove.") for r in m[1])
+        return (f"{{ guarded := {'true' if m[0]['guarded'] else 'false'}, stored := {'true' if m[0]['stored'] else 'false'}, "
+                f"direct := {'true' if direct else 'false'} }}")
+
+    def chain(ch):
+        return "[" + ", ".join(f"({pyexpr.lean_str(k)}, [" + ", ".join("." + o for o in ops) + "])" for (k, ops, _) in ch) + "]"
     for which, (rel, cls, n) in CONTOURS.items():
         m = C["memo"].get(which)
         if m is not None:
-            L.append(f"/-- pyroll/core/{rel}:{m[2]} `{cls}.contour_lines`: memo guard first / built value stored; what it reads of the pass -/")
-            L.append(f"def {which}_memo : Memo := {{ guarded := {'true' if m[0]['guarded'] else 'false'}, stored := {'true' if m[0]['stored'] else 'false'} }}")
+            L.append(f"/-- pyroll/core/{rel}:{m[2]} `{cls}.contour_lines`: memo guard first / built value stored / reads `roll.groove.…` "
+                     f"directly; what it reads of the pass -/")
+            L.append(f"def {which}_memo : Memo := {memo(m)}")
             L.append(f"def {which}_memo_reads : List String := [" + ", ".join(pyexpr.lean_str(r) for r in m[1]) + "]")
         else:
             L.append(f"def {which}_memo : Memo := {{ guarded := true, stored := true }}")
             L.append(f"def {which}_memo_reads : List String := [\"<untranslatable>\"]")
         ch = C["chain"].get(which)
         L.append(f"/-- `reevaluate_cache` along the MRO of `{cls}` (classes that define it, most derived first) -/")
-        if ch is not None:
-            L.append(f"def {which}_reevaluate : List (String × List ROp) := [" + ", ".join(
-                f"({pyexpr.lean_str(k)}, [" + ", ".join("." + o for o in ops) + "])" for (k, ops, _) in ch) + "]")
+        L.append(f"def {which}_reevaluate : List (String × List ROp) := " + (chain(ch) if ch is not None else "[]"))
+        rm = C["roll_memo"].get(which)
+        if rm is not None:
+            L.append(f"/-- `{rm[3]}.contour_line` (line {rm[2]}), the property that answers `rp.roll.contour_line` on a `{cls}`: memo guard "
+                     f"first / built value stored; what it reads of the roll -/")
+            L.append(f"def {which}_roll_memo : Memo := {memo(rm)}")
+            L.append(f"def {which}_roll_memo_reads : List String := [" + ", ".join(pyexpr.lean_str(r) for r in rm[1]) + "]")
         else:
-            L.append(f"def {which}_reevaluate : List (String × List ROp) := []")
+            L.append(f"def {which}_roll_memo : Memo := {{ guarded := true, stored := true }}")
+            L.append(f"def {which}_roll_memo_reads : List String := [\"<untranslatable>\"]")
+        rch = C["roll_chain"].get(which)
+        L.append(f"/-- `reevaluate_cache` along the MRO of `{cls}.Roll` (classes that define it, most derived first) -/")
+        L.append(f"def {which}_roll_reevaluate : List (String × List ROp) := " + (chain(rch) if rch is not None else "[]"))
+        L.append(f"/-- the classes of the {which}-roll pass as the model `OutCS.Cache` takes them -/")
+        L.append(f"def {which}_pass : Pass := {{ memo := {which}_memo, rollMemo := {which}_roll_memo, chain := {which}_reevaluate.map Prod.snd, "
+                 f"rollChain := {which}_roll_reevaluate.map Prod.snd }}")
         L.append("")
+    rp = C["roll_points"]
+    L.append(f"/-- pyroll/core/{ROLL_HOOKIMPLS}: the implementations of the roll's hook `contour_points` (source order; function, what it "
+             f"returns of the roll) -/")
+    if rp is not None:
+        L.append("def roll_contour_points : List (String × String) := [" + ", ".join(
+            f"({pyexpr.lean_str(f)}, {pyexpr.lean_str(r)})" for (f, r, _) in rp) + "]")
+    else:
+        L.append("def roll_contour_points : List (String × String) := [(\"<untranslatable>\", \"<untranslatable>\")]")
+    L.append("")
     if C["loop"] is not None:
         L.append(f"/-- pyroll/core/unit/unit.py:{C['loop'][2]} `Unit.solve`: the calls of the solution loop's body in source order -/")
         L.append("def solve_loop : List LStep := [" + ", ".join("." + o for o in C["loop"][0]) + "]")
@@ -228,6 +295,9 @@ def emit_cache(ctx, C):
     changed = pyexpr.write_if_changed(os.path.join(LEAN_DIR, "PyrollModel", "Gen", "C08Cache.lean"), "\n".join(L) + "\n")
     ctx.notes.setdefault("generated", {})["Gen/C08Cache.lean"] = {
         "memo": {w: m[0] for w, m in C["memo"].items()}, "chain": {w: [(k, o) for (k, o, _) in c] for w, c in C["chain"].items()},
+        "roll_memo": {w: (m[3], m[0], m[1]) for w, m in C["roll_memo"].items()},
+        "roll_chain": {w: [(k, o) for (k, o, _) in c] for w, c in C["roll_chain"].items()},
+        "roll_contour_points": [(f, r) for (f, r, _) in rp] if rp else None,
         "loop": C["loop"][0] if C["loop"] else None, "init": C["init"][0] if C["init"] else None, "rewritten": changed}
 
 
@@ -340,7 +410,11 @@ RULE = ("every groove class (20 parametric classes from a catalogue of feasible 
         "height or inscribed circle diameter; contour_lines / usable_cross_section / height / gap / usable_width read before "
         "solve), `sprung` (the gap is a hook: unloaded gap + compliance x roll force of the previous iteration, opening or "
         "closing by 0.1..50 %), `regap` (instance created at another gap, looked at and/or solved there, gap or height set, "
-        "solved again); judged at the gap the pass reports. non-trivial = a width is prescribed or gap > 0; distinct by "
+        "solved again), `remount` (solved or only looked at, then ANOTHER groove - any class of comparable size, or the same "
+        "one re-turned with one dimension altered - is mounted by `rp.roll.groove = ...` (70 %) or on a new roll object, the gap "
+        "left alone (75 %; given explicitly, as height, or by a logging gap hook of a rigid stand) or set as well, a width "
+        "prescribed anew, solved again; 25 %: the first groove mounted back and solved a third time); judged at the gap the "
+        "pass reports and with the groove mounted at the end. non-trivial = a width is prescribed or gap > 0; distinct by "
         "(class, rounded parameters, gap, width/capacity, in-profile kind[, steps]).")
 ASSUMPTIONS = [
     "shapely/GEOS: Polygon / clip_by_rect / segmentize / is_valid are parameters of the term language (the term-level theorem "
@@ -351,9 +425,14 @@ ASSUMPTIONS = [
     "roll.contour_line and groove.contour_line have the same coordinates (C10 territory; checked on every case)",
     "IEEE rounding: theorems are over the reals; geometric comparisons use 1e-9 of the opening's size",
     "three rolls with gap exactly 0 are not generated: the usable cross-section raises there (known finding of C09)",
-    "memo/solution-loop model (part E): one memo (`_contour_lines`) and two cached hooks (gap, usable_cross_section); that the "
-    "gap enters the hook cache before the usable cross-section is an assumption of `recompute`, validated by K (e) on every "
-    "sprung scenario; the roll's own contour memo and convergence of the loop are not modelled",
+    "memo/solution-loop model (part E): the pass's memo (`_contour_lines`) and two of its cached hooks (gap, "
+    "usable_cross_section), the roll's memo (`_contour_line`) and its cached hook contour_points; that the gap enters the hook "
+    "cache before the usable cross-section is an assumption of `recompute`, validated by K (e) on every sprung / rigid-spring "
+    "scenario; WHAT the gap hook answers is an input of the model (an implementation that derives the gap from a stale memo "
+    "gives a wrong input, see notes/C08.md finding 2); the other cached hooks and convergence of the loop are not modelled",
+    "scenario clause `used-pass-raises`: 'for a given groove, gap and width it is the same shape' is also read as: a pass object "
+    "that was used before does not raise from the cross-section code where a pass given the identical final set-up at "
+    "construction solves",
     "scenario clause `differs-from-fresh-pass`: 'for a given groove, gap and width it is the same shape' is read as: the shape "
     "does not depend on how the pass instance was configured or used before (compared with a first solve of a fresh pass "
     "that is given the reported gap and the same width directly)",
@@ -412,11 +491,68 @@ CORPUS = [
 # kinds of USE under which the statement failed for a changed library although every plain case passed (notes/C08.md,
 # "Seeded changes"): (which, class, kwargs, gap / usable width, width kind, scenario)
 SCENARIO_CORPUS = [
+    ("two", "CircularOvalGroove", dict(depth=5.05, r1=7, r2=33), 0.06, "default", "remount"),
+    ("three", "RoundGroove", dict(depth=15.55, r1=2, r2=15.8), 0.04, "usable", "remount"),
     ("two", "CircularOvalGroove", dict(depth=5.05, r1=7, r2=33), 0.05, "default", "config"),
     ("three", "RoundGroove", dict(depth=15.55, r1=2, r2=15.8), 0.05, "default", "config"),
     ("two", "RoundGroove", dict(depth=15.55, r1=2, r2=15.8), 0.06, "default", "sprung"),
     ("three", "CircularOvalGroove", dict(depth=5.05, r1=7, r2=33), 0.04, "under", "sprung"),
     ("two", "BoxGroove", dict(depth=52, r1=15, r2=18, usable_width=185.29, ground_width=157.62), 0.05, "near-usable-above", "regap"),
+]
+
+
+# whole histories of one pass object on which the statement failed (notes/C08.md, finding 2): replayed as they are
+HISTORY_CORPUS = [
+    {'pass': 'three',
+     'groove': {'cls': 'GothicGroove',
+                'kwargs': {'depth': 0.09261004521279438,
+                           'r1': 0.013891506781919156,
+                           'r2': 0.18522009042558876,
+                           'r3': 0.009261004521279438,
+                           'usable_width': 0.18522009042558876,
+                           'pad_angle': 30}},
+     'scenario': 'remount',
+     'steps': [{'op': 'new',
+                'given': {'height': 0.2956073683589967},
+                'width': 0.3184009447394561,
+                'kwargs': {'target_filling_ratio': 0.8295267903113822, 'target_width': 0.1791223345734096, 'orientation': 90}},
+               {'op': 'solve'},
+               {'op': 'mount',
+                'groove': {'cls': 'Oval3RadiiFlankedGroove',
+                           'kwargs': {'depth': 0.07169016834912299,
+                                      'r1': 0.01046571800717124,
+                                      'r2': 0.04099072886142069,
+                                      'r3': 0.3192043992187228,
+                                      'usable_width': 0.25902878755200853,
+                                      'flank_angle': 73.302756,
+                                      'pad_angle': 30}},
+                'how': 'groove'},
+               {'op': 'set', 'attr': 'c08_width', 'value': 0.2994474856795818, 'width_kind': 'near-usable-below'},
+               {'op': 'solve'}],
+     'width_kind': 'extent',
+     'in_profile': 'diamond',
+     'in_height': 0.3221087485108658},
+    {'pass': 'three',
+     'groove': {'cls': 'ConstrictedUpsetBoxGroove',
+                'kwargs': {'depth': 0.06322881477040855,
+                           'r1': 0.010538135795068092,
+                           'r2': 0.0063228814770408545,
+                           'usable_width': 0.041825075247167456,
+                           'ground_width': 0.019854651181076214,
+                           'indent': 0.001053813579506809,
+                           'r4': 0.002107627159013618,
+                           'pad_angle': 30}},
+     'scenario': 'remount',
+     'steps': [{'op': 'new', 'given': {'height': 0.1551875511725329}, 'width': None, 'kwargs': {}},
+               {'op': 'solve'},
+               {'op': 'mount',
+                'groove': {'cls': 'FlatGroove',
+                           'kwargs': {'usable_width': 0.04990499930684187, 'r1': 0.009980999861368375, 'pad_angle': 30}},
+                'how': 'groove'},
+               {'op': 'solve'}],
+     'width_kind': 'default',
+     'in_profile': 'round',
+     'in_height': 0.18622506140703948},
 ]
 
 
@@ -427,10 +563,11 @@ def _build_groove(desc):
     return getattr(pc, desc["cls"])(**desc["kwargs"])
 
 
-def _random_groove(rng, which, ctx):
-    """-> (desc, groove) ; desc is JSON-able and sufficient to rebuild the groove"""
+def _random_groove(rng, which, ctx, scale=None):
+    """-> (desc, groove) ; desc is JSON-able and sufficient to rebuild the groove; `scale` = factor applied to the lengths
+    of the catalogue's parameter set (default: log-uniform 1e-3..1)"""
     import warnings
-    s = 10 ** rng.uniform(-3, 0)
+    s = 10 ** rng.uniform(-3, 0) if scale is None else scale
     if which == "two" and rng.random() < 0.14:
         # arbitrary mirror-symmetric polyline with horizontal faces (z-monotone, y not monotone)
         n = rng.randrange(2, 9)
@@ -500,10 +637,7 @@ def _pass_class(which):
     return _PASS_CLASSES[which]
 
 
-def _make_pass(which, groove, gap, width, kwargs=None, given=None):
-    """`given` = how the roll gap is given: None -> `gap=gap`; {"height": h}; {"inscribed_circle_diameter": d} (three rolls);
-    {"spring": [unloaded gap, compliance]} (the `sprung_gap` hook of the throw-away class); `kwargs` = further explicit
-    hook values of the pass"""
+def _make_roll(which, groove):
     import pyroll.core as pc
     uw = float(groove.usable_width)
     extra = {}
@@ -511,9 +645,15 @@ def _make_pass(which, groove, gap, width, kwargs=None, given=None):
         # the three-roll contact area goes through the contact-line machinery, which fails for under-filled passes
         # (EmptyPartError); it is no part of this property, so the value is supplied
         extra["contact_area"] = uw * uw
+    return pc.Roll(groove=groove, nominal_radius=10 * uw, rotational_frequency=1.0, neutral_point=0.0, **extra)
+
+
+def _make_pass(which, groove, gap, width, kwargs=None, given=None):
+    """`given` = how the roll gap is given: None -> `gap=gap`; {"height": h}; {"inscribed_circle_diameter": d} (three rolls);
+    {"spring": [unloaded gap, compliance]} (the `sprung_gap` hook of the throw-away class); `kwargs` = further explicit
+    hook values of the pass"""
     how = {"gap": gap} if given is None else {k: v for k, v in given.items() if k != "spring"}
-    rp = _pass_class(which)(roll=pc.Roll(groove=groove, nominal_radius=10 * uw, rotational_frequency=1.0, neutral_point=0.0, **extra),
-                            velocity=1.0, **how, **(kwargs or {}))
+    rp = _pass_class(which)(roll=_make_roll(which, groove), velocity=1.0, **how, **(kwargs or {}))
     if given is not None and "spring" in given:
         rp.c08_spring = tuple(given["spring"])
         rp.c08_gap_log = []
@@ -819,7 +959,10 @@ def _oracle_seed(ctx, which, groove, gap, geo, in_profile, replay):
 # scenarios: the same statement on passes that are configured, looked at, used and re-used in other ways
 # --------------------------------------------------------------------------------------------------------------
 READS = ["contour_lines", "usable_cross_section", "height", "gap", "usable_width"]
-SCENARIOS = ["config", "config", "sprung", "regap"]
+SCENARIOS = ["config", "config", "sprung", "regap", "remount"]
+# width kinds under which the FIRST solve of a history goes through whatever the gap is (an earlier solve that raises ends
+# the history before the statement can be judged)
+FEASIBLE_KINDS = ["default", "under", "usable", "pad", "extent", "near-usable-below", "near-usable-above", "near-extent-below"]
 
 
 def _random_kwargs(rng, puw):
@@ -881,11 +1024,150 @@ def _scenario_steps(rng, name, which, groove, gap, w, puw, force):
     return [new] + reads + first + [{"op": "set", "attr": attr, "value": v_b}, {"op": "solve"}]
 
 
+def _scale_desc(desc, f):
+    if desc["cls"] == "SplineGroove":
+        return {"cls": "SplineGroove", "points": [[x * f, y * f] for x, y in desc["points"]]}
+    return {"cls": desc["cls"], "kwargs": {k: (v if k in ANGLES else v * f) for k, v in desc["kwargs"].items()}}
+
+
+def _other_groove(rng, which, ctx, desc, groove):
+    """ANOTHER groove that can be turned into the rolls of the same stand: any class (incl. the same one), of comparable size
+    (usable width 0.6..1.6 x); or the same groove re-turned with one dimension altered.  -> (desc, groove) | None"""
+    import warnings
+    uw = float(groove.usable_width)
+    if desc["cls"] != "SplineGroove" and rng.random() < 0.3:
+        kw = dict(desc["kwargs"])
+        k = rng.choice(sorted(set(kw) & JITTER))
+        kw[k] = kw[k] * rng.choice([rng.uniform(0.7, 0.97), rng.uniform(1.03, 1.3)])
+        d2 = {"cls": desc["cls"], "kwargs": kw}
+        try:
+            with warnings.catch_warnings():
+                warnings.simplefilter("ignore")
+                return d2, _build_groove(d2)
+        except Exception as ex:
+            ctx.count("groove-rejected:" + type(ex).__name__)
+    r = _random_groove(rng, which, ctx, scale=1.0)
+    if r is None:
+        return None
+    d2 = _scale_desc(r[0], uw / float(r[1].usable_width) * rng.uniform(0.6, 1.6))
+    try:
+        with warnings.catch_warnings():
+            warnings.simplefilter("ignore")
+            return d2, _build_groove(d2)
+    except Exception as ex:
+        ctx.count("groove-rejected:" + type(ex).__name__)
+        return None
+
+
+def _remount_steps(ctx, which, desc, groove, gap, w, puw):
+    """a history on ONE pass instance in which the ROLLS change: [solve,] another groove mounted (`rp.roll.groove = ...`, or
+    a new roll object `rp.roll = ...`), gap left as it is (mostly) or set as well, width prescribed anew, solve; possibly the
+    first groove mounted back and solved once more.  The gap is given explicitly, as a height, or by the gap hook of the
+    throw-away class with a rigid stand (compliance 0: a constant, but every answer is logged -> K (e)).
+    -> (steps, heights of every pass of the history) | None"""
+    rng = ctx.rng
+    r = _other_groove(rng, which, ctx, desc, groove)
+    if r is None:
+        return None
+    desc2, g2 = r
+    kwargs = _random_kwargs(rng, puw) if rng.random() < 0.3 else {}
+    u = rng.random()
+    explicit = u < 0.5
+    if explicit:
+        new = {"op": "new", "gap": gap, "width": w, "kwargs": kwargs}
+    elif u < 0.85 and gap > 0:
+        new = {"op": "new", "given": {"spring": [gap, 0.0]}, "width": w, "kwargs": kwargs}
+    else:
+        new = {"op": "new", "given": {"height": float(_make_pass(which, groove, gap, None).height)}, "width": w, "kwargs": kwargs}
+
+    def reads(p, must=None):
+        if rng.random() >= p and must is None:
+            return []
+        attrs = rng.sample(READS, rng.randrange(1, 4))
+        if must is not None and must not in attrs:
+            attrs.append(must)
+        return [{"op": "read", "attr": a} for a in attrs]
+
+    def pass_at(g, gap_now):
+        """a fresh pass with groove `g` under the way the gap is given in this history -> (pass, its gap) | None"""
+        try:
+            p = _make_pass(which, g, gap_now, None, None, None if "gap" in new else
+                           ({"height": new["given"]["height"]} if "height" in new["given"] else None))
+            gg = float(p.gap)
+            return (p, gg) if (math.isfinite(gg) and (gg > 0 or (which == "two" and gg == 0))) else None
+        except Exception as ex:
+            if not _in_pyroll(ex):
+                raise
+            return None
+
+    def width_for(g, gap_now):
+        """a prescribed width for the pass with groove `g`: any kind when the gap is an explicit input"""
+        pg = pass_at(g, gap_now)
+        if pg is None:
+            return None
+        p = _make_pass(which, g, pg[1], None)
+        try:
+            raw, region, polys, scale = _opening(p)
+            pw, h = float(p.usable_width), float(p.height)
+        except Exception as ex:
+            if not _in_pyroll(ex):
+                raise
+            return None
+        cap = _capacity(which, polys)
+        if not (h > 1e-9 * scale and cap == cap and cap > 0):
+            return None
+        ext_raw = (raw.bounds[2] - raw.bounds[0]) if which == "two" else 2 * raw.bounds[3]
+        kind = rng.choice(WIDTH_KINDS if explicit else SAFE_KINDS)
+        return kind, _width_for(kind, rng, pw, cap, ext_raw), h
+
+    # the pass is solved first (mostly), or only looked at (its contour lines are then memoised for the first groove)
+    steps = [new] + (reads(0.4) + [{"op": "solve"}] if rng.random() < 0.8 else reads(1.0, "contour_lines"))
+    heights = [float(_make_pass(which, groove, gap, None).height)]
+    gap_now = gap
+    back = rng.random() < 0.25                        # ... and the first groove mounted again: A, B, A
+    legs = [(desc2, g2, FEASIBLE_KINDS if back else None)] + ([(desc, groove, None)] if back else [])
+    for (d, g, feasible) in legs:
+        steps.append({"op": "mount", "groove": d, "how": "groove" if rng.random() < 0.7 else "roll"})
+        if explicit and rng.random() < 0.25:
+            gap_now = float(g.usable_width) * 10 ** rng.uniform(-3, math.log10(0.5))
+            steps.append({"op": "set", "attr": "gap", "value": gap_now})
+        wk = None
+        for _ in range(4):
+            wk = width_for(g, gap_now)
+            if wk is None or feasible is None or wk[0] in feasible:
+                break
+        if wk is None or (feasible is not None and wk[0] not in feasible):
+            return None
+        steps.append({"op": "set", "attr": "c08_width", "value": wk[1], "width_kind": wk[0]})
+        heights.append(wk[2])
+        steps += reads(0.3) + [{"op": "solve"}]
+    return steps, heights
+
+
 def _run_steps(which, groove, steps, ip):
-    """-> (pass, outcome of the last solve, an earlier solve raised)"""
+    """-> (pass, outcome of the last solve, an earlier solve raised, info): info["grooves"] = the grooves that were
+    mounted, in order (the last one is on the rolls at the end); info["solves"] = for every solve: which of them was
+    mounted, on a new roll object or not, and how many answers the logging gap hook had given before"""
+    import warnings
     rp, outcome, broken = None, None, False
+    info = {"grooves": [groove], "solves": [], "new_roll": False}
     for i, st in enumerate(steps):
         op = st["op"]
+        if op == "mount":
+            with warnings.catch_warnings():
+                warnings.simplefilter("ignore")
+                g = _build_groove(st["groove"])
+            if st.get("how") == "roll":
+                rp.roll = type(rp).Roll(_make_roll(which, g), rp)
+                info["new_roll"] = True
+            else:
+                rp.roll.groove = g
+            info["grooves"].append(g)
+            continue
+        if op == "solve":
+            log = rp.__dict__.get("c08_gap_log")
+            info["solves"].append({"k": len(info["grooves"]) - 1, "new_roll": info["new_roll"], "at": len(log) if log is not None else None})
+            info["new_roll"] = False
         if op == "new":
             rp = _make_pass(which, groove, st.get("gap"), st.get("width"), st.get("kwargs"), st.get("given"))
         elif op == "read":
@@ -902,16 +1184,39 @@ def _run_steps(which, groove, steps, ip):
                 broken = True
         else:
             raise ValueError(st)
-    return rp, outcome, broken
+    return rp, outcome, broken, info
 
 
 def _scenario(ctx, T, which, desc, groove, steps, ip, replay, lean=None, monotone=True, lean0=None):
     """run the steps, then check the statement at the gap the pass reports (`roll_pass.gap` after the last solve): the
     opening is built from a FRESH pass that is given this gap directly"""
-    rp, outcome, broken = _run_steps(which, groove, steps, ip)
+    import numpy as np
+    rp, outcome, broken, info = _run_steps(which, groove, steps, ip)
     if broken or outcome is None:
         ctx.count("scenario:earlier-solve-raised")
         return
+    groove0, groove = groove, info["grooves"][-1]       # the statement is about the rolls that are mounted NOW
+    if groove is not groove0:
+        ctx.count("scenario:judged-with-remounted-groove")
+    last = max(i for i, st in enumerate(steps) if st["op"] == "solve")
+    used_before = any(st["op"] in ("solve", "read", "mount", "set") for st in steps[:last])
+    if outcome[0] == "raised" and outcome[3] == "cross_section" and used_before:
+        # "for a given groove, gap and width it is the same shape": the pass object was looked at / solved / re-fitted before
+        # and now raises from the code that builds the cross-sections - a pass that is given the SAME final set-up at
+        # construction (last groove, every value set in order) and solved for the first time must raise as well
+        new = next(st for st in steps if st["op"] == "new")
+        fresh = _make_pass(which, groove, new.get("gap"), new.get("width"), new.get("kwargs"), new.get("given"))
+        for st in steps[:last]:
+            if st["op"] == "set":
+                setattr(fresh, st["attr"], st["value"])
+        fo = _solve(fresh, ip)
+        ctx.count("scenario:used-pass-raised:fresh-pass-" + fo[0])
+        if fo[0] == "ok":
+            how = "+".join(sorted(new.get("given", {})))
+            ctx.violation(f"{which}-used-pass-raises" + (f"-gap-given-as-{how}" if how else ""),
+                          f"the last solve of the history raised {outcome[1]}: {outcome[2]}; a fresh pass of the identical final "
+                          f"set-up (groove, gap {float(fresh.gap)}, width) solves", replay)
+            return
     try:
         gfin = float(rp.gap)
         w = rp.__dict__.get("c08_width")
@@ -958,28 +1263,76 @@ def _scenario(ctx, T, which, desc, groove, steps, ip, replay, lean=None, monoton
         return
     # ---- K (a)/(b) on the scenario: the generated program at the REPORTED gap vs what the used pass returned ----------
     uw, depth = float(groove.usable_width), float(groove.depth)
+    # the roll's contour is taken from the GROOVE that is mounted (hypothesis of two_code_paths_agree, checked in `_group` for
+    # the first groove of the history and here for the last one): what the used roll object holds is compared with it
+    gc = np.array(groove.contour_line.coords)
+    if groove is not groove0:
+        try:
+            rc = np.array(rp.roll.contour_line.coords)
+        except Exception as ex:
+            if not _in_pyroll(ex):
+                raise
+            rc = None
+        if rc is None or rc.shape != gc.shape or not np.array_equal(rc, gc):
+            ctx.disagreement("after mounting another groove roll.contour_line does not have the coordinates of the mounted groove's "
+                             "contour_line (hypothesis of two_code_paths_agree)", replay)
     srcs = {"rollContour": rp.roll.contour_line, "grooveContour": groove.contour_line}
     env = {"width": wexp, "gap": gfin, "roll.groove.usable_width": uw, "usable_width": puw, "groove.usable_width": uw,
            "groove.depth": depth}
     mine = _k_terms(ctx, T, which, fn, prog, srcs, env, outcome, replay)
     log = rp.__dict__.get("c08_gap_log")
     if log and outcome[0] == "ok" and lean0 is not None and len(lean0) <= LEAN_LINE_CAP + 400:
-        # ---- K (e): the model of memo / caches / solution loop (OutCS.Cache with the generated pieces) run on the gap
-        # values the spring hook really answered (one during init_solve, one per iteration) vs the state of the real pass
-        lean0.append((f"cache {which} " + " ".join(str(stub.bits(g)) for g in log),
-                      ("cache", _cache_verifier(T, which, rp, srcs, env, fn, prog)), replay))
-    if lean is not None and monotone:
+        # ---- K (e): the model of memos / caches / solution loop (OutCS.Cache with the generated pieces) run on the history
+        # of the pass - per solve: which groove was mounted (on a new roll object or not) and the gap values the logging
+        # hook really answered (one during init_solve of a fresh pass, one per iteration) - vs the state of the real pass
+        line = _cache_line(which, info, log)
+        if line is None:
+            ctx.count("cache-model:history-outside-the-model")
+        else:
+            lean0.append((line, ("cache", _cache_verifier(T, which, rp, info["grooves"], env, fn, prog)), replay))
+    monotone2 = monotone if groove is groove0 else bool((np.diff(gc[:, 0]) > 0).all())
+    if lean is not None and monotone and monotone2:
+        def contour_line(g):
+            c = np.array(g.contour_line.coords)
+            return ("contour " + " ".join(f"{stub.bits(x)} {stub.bits(y)}" for x, y in c), ("contour", len(c)), None)
+        if groove is not groove0:
+            lean.append(contour_line(groove))
         valid = _observed_validity(T, prog, _lines_term(T, which), srcs, env)
         lean.append(("env " + " ".join(f"{k}={stub.bits(v)}" for k, v in env.items()) + f" @valid={stub.bits(valid)}", ("env",), replay))
         lean.append((f"run {which}_cross_section", ("run", "ok" if outcome[0] == "ok" else "raised", outcome[1] if outcome[0] == "raised" else None,
                                                     outcome[1].cross_section if outcome[0] == "ok" else None,
                                                     mine[2] if len(mine) > 2 else {}, tol), replay))
+        if groove is not groove0:
+            lean.append(contour_line(groove0))           # the other cases of the group go on with the group's groove
 
 
-def _cache_verifier(T, which, rp, srcs, env, fn, prog):
-    """what the used pass really holds after the solve, to be compared with the model's prediction {used, lines, ucs, gap}
-    (each a gap value): the out cross-section / the memoised contour lines / the cached usable cross-section must be, bit for
-    bit, what the generated terms give with the contour lines placed at the predicted gap; `gap` is what the pass reports"""
+def _cache_line(which, info, log):
+    """the history of a pass as one line for the model driver:
+    `cache <which> <solve> [/ <solve>]*`, <solve> = `<groove index> <new|same> <g0 bits> <g1 bits> ...` (g0: the gap hook's
+    answer during init_solve - on a used pass the cached value answers there, the entry repeats it -, then one per
+    iteration); None when a solve of the history has no logged iteration"""
+    parts = []
+    prev = None
+    ats = [sv["at"] for sv in info["solves"]] + [len(log)]
+    for j, sv in enumerate(info["solves"]):
+        if sv["at"] is None:
+            return None
+        entries = log[(0 if j == 0 else ats[j]):ats[j + 1]]
+        if j > 0:
+            entries = [prev] + entries
+        if len(entries) < 2 or any(not isinstance(e, float) or e != e for e in entries):
+            return None
+        parts.append(f"{sv['k']} {'new' if sv['new_roll'] else 'same'} " + " ".join(str(stub.bits(g)) for g in entries))
+        prev = entries[-1]
+    return f"cache {which} " + " / ".join(parts) if parts else None
+
+
+def _cache_verifier(T, which, rp, grooves, env, fn, prog):
+    """what the used pass really holds after the last solve of its history, to be compared with the model's prediction
+    {used, lines, ucs: (gap value, index of the groove whose contour the roll's contour line carried, index of the groove read
+    directly | None), gap: value}: the out cross-section / the memoised contour lines / the cached usable cross-section must
+    be, bit for bit, what the generated terms give with the contour of THAT groove placed at THAT gap; `gap` is what the
+    pass reports"""
     import numpy as np
     real = {"gap": float(rp.gap),
             "lines": np.concatenate([np.array(l.coords) for l in rp.contour_lines.geoms]),
@@ -993,22 +1346,31 @@ def _cache_verifier(T, which, rp, srcs, env, fn, prog):
         bad = []
         if pred.get("gap") is None or pred["gap"] != real["gap"]:
             bad.append(f"reported gap: model {pred.get('gap')}, pass {real['gap']}")
-        for key, build in (("lines", lambda e: _coords(eval_term(lines_term, srcs, e))),
-                           ("used", lambda e: np.array(eval_prog(T, prog, lines_term, srcs, e)[1].exterior.coords)),
-                           ("ucs", lambda e: np.array(eval_prog(T, uprog, lines_term, srcs, e)[1].exterior.coords))):
+        for key, build in (("lines", lambda sr, e: _coords(eval_term(lines_term, sr, e))),
+                           ("used", lambda sr, e: np.array(eval_prog(T, prog, lines_term, sr, e)[1].exterior.coords)),
+                           ("ucs", lambda sr, e: np.array(eval_prog(T, uprog, lines_term, sr, e)[1].exterior.coords))):
             if key == "ucs" and uprog is None:
                 continue
-            g = pred.get(key)
-            if g is None:
+            pv = pred.get(key)
+            if pv is None:
                 bad.append(f"{key}: the model holds no value")
                 continue
+            g, kl, kd = pv
+            if not (0 <= kl < len(grooves)) or (kd is not None and not (0 <= kd < len(grooves))):
+                bad.append(f"{key}: the model names groove {kl}/{kd} of {len(grooves)}")
+                continue
+            sr = {"rollContour": grooves[kl].contour_line, "grooveContour": grooves[kl].contour_line}
+            e = dict(env, gap=g)
+            if kd is not None:
+                e["roll.groove.usable_width"] = float(grooves[kd].usable_width)
             try:
-                mine = build(dict(env, gap=g))
+                mine = build(sr, e)
             except Exception as ex:
-                bad.append(f"{key}: generated term at gap {g}: {type(ex).__name__}")
+                bad.append(f"{key}: generated term at gap {g}, groove {kl}: {type(ex).__name__}")
                 continue
             if mine.shape != real[key].shape or not np.array_equal(mine, real[key]):
-                bad.append(f"{key}: not the generated construction with the contour lines at gap {g} (the pass reports {real['gap']})")
+                bad.append(f"{key}: not the generated construction with the contour of groove {kl} (of {len(grooves)} mounted one after "
+                           f"the other) at gap {g} (the pass reports {real['gap']})")
         return bad
     return verify
 
@@ -1164,18 +1526,37 @@ def _group(ctx, T, which, desc, groove, gap, kinds, lean, force=None):
             if name == "sprung" and kind not in SAFE_KINDS:
                 kind_s = rng.choice(SAFE_KINDS)
                 w_s = _width_for(kind_s, rng, puw, cap, ext_raw)
-            steps = _scenario_steps(rng, name, which, groove, gap, w_s, puw, F0)
+            ip_s = ip
+            if name == "remount":
+                if kind not in FEASIBLE_KINDS:
+                    kind_s = rng.choice(FEASIBLE_KINDS)
+                    w_s = _width_for(kind_s, rng, puw, cap, ext_raw)
+                rs = _remount_steps(ctx, which, desc, groove, gap, w_s, puw)
+                if rs is None:
+                    ctx.count("scenario:remount-not-built")
+                    name = None
+                else:
+                    steps = rs[0]
+                    # one incoming profile for every solve of the history: taller than each of the passes
+                    ip_s = _in_profile(in_kind, max(rs[1]) * rng.uniform(1.05, 1.4), uw)
+            else:
+                steps = _scenario_steps(rng, name, which, groove, gap, w_s, puw, F0)
+        else:
+            name = None
+        if name is not None:
             ctx.count("scenario:" + name)
             for st in steps:
                 if st["op"] == "new":
                     for k in st.get("kwargs", {}):
                         ctx.count("scenario-kwarg:" + k)
                     ctx.count("scenario-gap-given-as:" + "+".join(sorted(st.get("given", {"gap": 0}))))
+                if st["op"] == "mount":
+                    ctx.count("scenario-mount:" + st["how"])
             ctx.case([which, desc["cls"], round(math.log10(scale), 3), round(gap / uw, 9), kind_s, name,
                       json.dumps(steps, sort_keys=True, default=str)])
-            _scenario(ctx, T, which, desc, groove, steps, ip,
+            _scenario(ctx, T, which, desc, groove, steps, ip_s,
                       {"pass": which, "groove": desc, "scenario": name, "steps": steps, "width_kind": kind_s, "in_profile": in_kind,
-                       "in_height": float(ip.height), "capacity_at_first_gap": cap}, lean, monotone, lean0)
+                       "in_height": float(ip_s.height), "capacity_at_first_gap": cap}, lean, monotone, lean0)
         if len(ctx.samples) < 4 and kind in ("pad", "beyond"):
             ctx.sample({k: replay[k] for k in ("pass", "groove", "gap", "width_kind", "width", "capacity")} |
                        {"outcome": outcome[0] if outcome[0] == "ok" else list(outcome[1:3])})
@@ -1256,7 +1637,15 @@ def _check_lean(ctx, lean):
                 ctx.disagreement(f"model driver: {o[:80]!r} on a cache line", replay)
                 continue
             try:
-                pred = {k: (None if v == "none" else stub.unbits(v)) for k, v in (t.split("=") for t in toks[1:])}
+                pred = {}
+                for k, v in (t.split("=") for t in toks[1:]):
+                    if v == "none":
+                        pred[k] = None
+                    elif k == "gap":
+                        pred[k] = stub.unbits(v)
+                    else:                         # <gap bits>:<groove index of the roll's contour line>:<groove read directly | ->
+                        a, b, c = v.split(":")
+                        pred[k] = (stub.unbits(a), int(b), None if c == "-" else int(c))
             except Exception:
                 ctx.disagreement(f"model driver: unparsable answer {o[:80]!r} on a cache line", replay)
                 continue
@@ -1266,6 +1655,8 @@ def _check_lean(ctx, lean):
             else:
                 ctx.validated()
                 ctx.count("cache-model-solves-compared")
+                if " / " in line:
+                    ctx.count("cache-model-histories-compared")       # several solves of ONE pass object, grooves mounted between
         elif exp[0] == "run":
             _, kind, exc, geom, meas, tol = exp
             head, _, mpart = o.partition(" # ")
@@ -1334,6 +1725,36 @@ def _check_resolution(ctx, T):
                 ctx.validated()
             if not isinstance(cls.__dict__.get("contour_lines", getattr(cls, "contour_lines", None)), property):
                 ctx.disagreement(f"{cls.__name__}.contour_lines is not a property", {})
+        # the roll side: the classes of the real MRO of `<pass class>.Roll` that define `reevaluate_cache`, the class whose
+        # property answers `rp.roll.contour_line`, and the implementation of `contour_points` that is tried first
+        C = T.get("cache") or {}
+        real_roll_mro = [k.__qualname__ for k in cls.Roll.__mro__]
+        if [k for k in real_roll_mro if k in ROLL_MRO[which]] != ROLL_MRO[which]:
+            ctx.disagreement(f"MRO of {cls.__name__}.Roll is {real_roll_mro}, the translator assumes {ROLL_MRO[which]}", {})
+        rchain = C.get("roll_chain", {}).get(which)
+        if rchain is not None:
+            real_def = [k.__qualname__ for k in cls.Roll.__mro__ if "reevaluate_cache" in k.__dict__]
+            if real_def != [k for (k, _, _) in rchain]:
+                ctx.disagreement(f"{cls.__name__}.Roll: reevaluate_cache is defined by {real_def} along the real MRO, the generated "
+                                 f"chain has {[k for (k, _, _) in rchain]}", {"method": "Roll.reevaluate_cache"})
+            else:
+                ctx.validated()
+        rm = C.get("roll_memo", {}).get(which)
+        if rm is not None:
+            owner = next((k for k in cls.Roll.__mro__ if "contour_line" in k.__dict__), None)
+            if owner is None or owner.__qualname__ != rm[3] or not isinstance(owner.__dict__["contour_line"], property):
+                ctx.disagreement(f"{cls.__name__}.Roll.contour_line is provided by {owner.__qualname__ if owner else None}, the generated "
+                                 f"memo is the one of {rm[3]}", {"property": "Roll.contour_line"})
+            else:
+                ctx.validated()
+        rpts = C.get("roll_points")
+        if rpts is not None:
+            real = [f.name for f in cls.Roll.contour_points.functions]
+            if not real or real[0] != rpts[-1][0]:
+                ctx.disagreement(f"{cls.__name__}.Roll.contour_points is answered first by {real[:1]}, the generated module has "
+                                 f"{rpts[-1][0]}", {"hook": "Roll.contour_points"})
+            else:
+                ctx.validated()
         real = [f.name for f in cls.OutProfile.width.functions]
         # the default of the out profile's width must come before the measuring implementations of Profile.width
         if "width" not in real or real.index("width") != 0:
@@ -1384,6 +1805,12 @@ def run(ctx):
             desc = {"cls": cls, "kwargs": dict(kw, pad_angle=PAD[which])}
             g = _build_groove(desc)
             _group(ctx, T, which, desc, g, gf * float(g.usable_width), [kind], lean, force=name)
+        for r in HISTORY_CORPUS:
+            g = _build_groove(r["groove"])
+            ctx.case([r["pass"], r["groove"]["cls"], "history-corpus", json.dumps(r["steps"], sort_keys=True)])
+            ctx.count("scenario:" + r["scenario"])
+            _scenario(ctx, T, r["pass"], r["groove"], g, r["steps"], _in_profile(r["in_profile"], r["in_height"], float(g.usable_width)),
+                      dict(r), None, True, lean)
         done = 0
         while done < n_groups:
             which = "two" if rng.random() < 0.55 else "three"
